@@ -16,7 +16,7 @@ from ..engine import Violation, Ctx
 RULE = ("for each law instance: operands p,q = random formulas (depth<=3), random bounds a<=b, c<=d in 0..4, trace length "
         "1..12 (discrete) / piecewise-constant signals with unaligned break-points (dense); both sides evaluated by the same "
         "monitor. distinct by (law, lhs text, data, monitor); non-trivial when the common signal is not constant +-inf. "
-        "laws-decimal (60 / 500 instances groups): same instances with bounds 0..4 periods written as exact decimal durations in a "
+        "laws-decimal (60 / 500 groups of instances): same instances with bounds 0..4 periods written as exact decimal durations in a "
         "random unit, sampling period drawn from decimal fractions and multiples of s/ms/us/ns, trace length 3..14, monitors "
         "offline / online / pastified; failing traces are shrunk.")
 EXPLANATION = ("theorems: the nine laws as equalities of rho for all operands, bounds and traces (C18_not_ev_bounded, "
